@@ -63,7 +63,7 @@ CHECKS = {
    "DESIGN.md §4 C11"),
  "C12": ("exploration",
    "randomized real-thread schedule generation (proptest) with a schedule-independent final-state oracle and a watchdog",
-   "At least 12 000 (quick) generated schedules of one waiter against 1-3 signaller threads, in parked-first (missing notify is deterministic) and racing start orders; if the final state satisfies the waiter's predicate it must have returned within a 10 s watchdog, else a harness cancel must release it; deadline cases must time out not earlier than the deadline, and not much later while another thread issues non-satisfying wake-ups (confirmed twice); a producer parked on a full window returns with credit when the receiver resumes at any boundary up to everything sent. Interleavings are sampled, not enumerated.",
+   "At least 12 000 (quick) generated schedules of one waiter against 1-3 signaller threads, in parked-first (missing notify is deterministic) and racing start orders; if the final state satisfies the waiter's predicate it must have returned within a 10 s watchdog, else a harness cancel must release it; deadline cases must time out not earlier than the deadline, and not much later while another thread issues non-satisfying wake-ups (confirmed twice); a producer parked on a full window returns with credit when the receiver resumes at any boundary up to everything sent; a race hammer issues one satisfying signal at swept sub-microsecond skews around the waiter's entry (spin rendezvous, lock contention, 4 000 rounds per waiter/signal pair). Interleavings are sampled, not enumerated.",
    "Real OS scheduling; the lock-step model-checking clause of the quantifier is outside this technique (DESIGN.md §9).",
    "DESIGN.md §4 C12"),
  "C13": ("exploration",
